@@ -119,7 +119,7 @@ def h_formulas(ctx):
 # ---- data level ---------------------------------------------------------------------------------------------
 DAY = 86400
 T0 = 1330387200
-FIELDS = ["obs", "fcst", "pit", "p1", "p3", "p0.1", "q0.1", "q0.9", "e0", "e1", "e2"]
+FIELDS = ["obs", "fcst", "pit", "p1", "p3", "p0.1", "q0.1", "q0.5", "q0.9", "e0", "e1", "e2"]
 
 
 def dataset(seed):
@@ -139,6 +139,7 @@ def dataset(seed):
         ai.fields["p0.1"][pos] = [0.0, 0.125, 0.0, 0.25, 0.0, 0.0, 0.5, 0.125][j]      # differs from the ensemble fraction at 0.1
         ai.fields["q0.1"][pos] = 0.25 * j
         ai.fields["q0.9"][pos] = 0.25 * j + [2.0, 1.0, 3.0, 0.5][n % 4]
+        ai.fields["q0.5"][pos] = 0.25 * j + 0.375 * [2.0, 1.0, 3.0, 0.5][n % 4]      # not midway: the distribution is skewed
         ai.fields["pit"][pos] = [0.0, 0.125, 0.5, 0.625, 0.875, 1.0, 0.25, 0.5][j]
         base = [0.5, 1.0, 2.0, 3.0, 1.0, 2.5, 3.5, 1.5][j]
         ai.fields["e0"][pos] = base
@@ -287,7 +288,7 @@ def _stored(lo, hi):
     return all(x in (1.0, 3.0, 0.1) or math.isinf(x) for x in (lo, hi))
 
 
-QUANT_SETS = [[0.1, 0.9], [0.25, 0.75], [0.1], [0.5], [0.9]]
+QUANT_SETS = [[0.1, 0.9], [0.25, 0.75], [0.1], [0.5], [0.9], [0.1, 0.5], [0.5, 0.9], [0.25, 0.9]]   # the last three are not symmetric about the median
 
 
 def h_quant(ctx):
